@@ -6,8 +6,10 @@
    rung 3 = whole files: C02_full is a THEOREM for every single-section file of the reference writer's style space (both
    cross-reference formats, object streams, Length by reference, all filter chains and predictors), composed of
    C02_loads_table_reflen_partial and C02_loads_objstm_partial; files of several sections: the format-independent half
-   (C02_prev_chain, C02_merge_newest_wins, C02_load_chain_frame), the writer-specific half is the Definition
-   C02_loads_multi_partial (notes/C02.md). *)
+   (C02_prev_chain, C02_merge_newest_wins, C02_load_chain_frame) and the writer-specific half for every file without object
+   streams: C02_loads_multi_mixed (every part a table or a cross-reference stream with any filter chain, mixed Prev chains,
+   objects listed again, superseded definitions, Length references across parts; objects and trailer as in C02_full);
+   the statement for the whole style space (object streams across parts) stays the Definition C02_loads_multi_partial. *)
 From LV Require Import Base.Bytes Base.Sx Model.Obj Model.Writer Model.Parser Model.Xref Spec.XrefSpec
   Model.ObjStm Proofs.LexProofs Proofs.XrefProofs Proofs.XrefTableProofs Proofs.ObjStmProofs
   Spec.RefWriter Proofs.SpellingProofs Proofs.LitStringProofs Proofs.SpellingProofsLit
@@ -1162,13 +1164,10 @@ Proof.
 Qed.
 
 (* what stays outside C02_full, by name:
-   (a) files of SEVERAL SECTIONS (ref_write_multi: Prev chain, objects listed again, superseded definitions): the reader's
-       three passes are proved for ANY merged table (Proofs/LoadsLoopProofs.v: C02_merge_object_streams,
-       C02_zero_length_pass, read_entries_x_loop and load_ext_frame_loop take the merged table / the result of prev_loop_x as
-       parameters); missing: prev_loop_x over the sections of write_parts (each section decodes by the single-section lemmas
-       once they are restated for section_text with a Prev entry; the merge is C07's merge_chain_latest) and the layout of
-       write_parts (offsets per part, superseded bodies that no entry names).  Checked by correspondence and direct verdict
-       (load-multi* cases).
+   (a) files of SEVERAL SECTIONS (ref_write_multi: Prev chain, objects listed again, superseded definitions) are not single-section
+       files: they are C02_loads_multi_mixed below (same conclusion), for every such file WITHOUT object streams; with object
+       streams across parts only the format-independent half is proved (C02_prev_chain, C02_merge_newest_wins,
+       C02_load_chain_frame, C02_merge_object_streams), the rest is checked by correspondence and direct verdict (load-multi* cases).
    (b) the class of C02-deep-parens is stated on the RAW parentheses of the spelling (raw_depth_ok), the check's class
        Known_deep_parens on all parentheses of the string: a style that escapes closing parentheses while leaving more than
        100 opening ones raw is in the theorem's class but not in the check's (not drawn by the generator). *)
